@@ -260,8 +260,24 @@ void InterfacePayload::setData(const uint8_t* streamIds,
 
 bool InterfacePayload::isValidPayload(const uint8_t* data, const size_t size)
 {
+    if (size < minPayloadSize)
+        return false;
+
     auto header = reinterpret_cast<const Header*>(data);
-    return (size >= sizeof(Header) && header->getInterfaceStatus() <= InterfaceStatus::disabled);
+    if (header->getInterfaceStatus() > InterfaceStatus::disabled)
+        return false;
+
+    // Stream IDs (padded to an even count) and vendor data are each stored as a 16-bit length followed by the bytes
+    size_t offset = sizeof(Header);
+    size_t length = (static_cast<size_t>(data[offset]) << 8) | data[offset + 1];
+    length += length % 2;
+    offset += sizeof(uint16_t);
+    if (size - offset < length + sizeof(uint16_t))
+        return false;
+    offset += length;
+    length = (static_cast<size_t>(data[offset]) << 8) | data[offset + 1];
+    offset += sizeof(uint16_t);
+    return size - offset >= length;
 }
 
 const InterfacePayload::Header* InterfacePayload::getHeader() const
@@ -282,7 +298,7 @@ const uint8_t* InterfacePayload::getStreamIdCountPtr() const
 const uint8_t* InterfacePayload::getVendorDataLengthPtr() const
 {
     auto countPtr = getStreamIdCountPtr();
-    auto count = toUint16(countPtr);
+    size_t count = toUint16(countPtr);
     if (count % 2)
         ++count;
 
